@@ -509,6 +509,54 @@ func specPopulations() seqmc.Spec {
 	}}
 }
 
+// (f) one client, two queries, one of them removed: the other registration is
+// untouched - whatever the two have in common (a shared prefix, a wildcard
+// tail that selects the same updates, one nested in the other).
+func specTwoQueries() seqmc.Spec {
+	qs := seqs([]string{"a", "b", "*"}, 1, 3)
+	ps := seqs([]string{"a", "b", "*"}, 0, 3)
+	return seqmc.Spec{Name: fmt.Sprintf("one client with two queries (each <=3 over {a,b,*}), the first removed: offered iff the remaining one agrees (%d pairs x %d update paths)", len(qs)*len(qs), len(ps)), N: len(qs) * len(qs), Run: func(i int) (string, bool, []seqmc.Violation) {
+		q1, q2 := qs[i/len(qs)], qs[i%len(qs)]
+		desc := fmt.Sprintf("queries %v and %v of one client, %v removed", q1, q2, q1)
+		if fmt.Sprint(q1) == fmt.Sprint(q2) {
+			return desc, false, nil // the same query twice is one registration
+		}
+		m := match.New()
+		c := &counter{}
+		rm1 := m.AddQuery(q1, c)
+		rm2 := m.AddQuery(q2, c)
+		for _, p := range ps {
+			c.n = 0
+			m.UpdateOnce("n", p, map[match.Client]struct{}{})
+			want := 0
+			if rel(q1, p) || rel(q2, p) {
+				want = 1
+			}
+			if c.n != want {
+				return desc, true, vio("two-queries", "client registered at %v and %v was invoked %d times (UpdateOnce) for an update at %v; the statement says %d", q1, q2, c.n, p, want)
+			}
+		}
+		rm1()
+		for _, p := range ps {
+			c.n = 0
+			m.Update("n", p)
+			want := rel(q2, p)
+			if (c.n > 0) != want || c.n > 1 {
+				return desc, true, vio("two-queries", "client registered at %v and %v, after removing %v: invoked %d times for an update at %v; its remaining query %v says invoked=%v", q1, q2, q1, c.n, p, q2, want)
+			}
+		}
+		rm2()
+		for _, p := range ps {
+			c.n = 0
+			m.Update("n", p)
+			if c.n != 0 {
+				return desc, true, vio("after-remove", "client invoked at %v after both its queries %v, %v were removed", p, q1, q2)
+			}
+		}
+		return desc, true, nil
+	}}
+}
+
 type harness struct{}
 
 func (harness) Property() string { return "C06" }
@@ -517,7 +565,7 @@ func (harness) Specs(tier string) []seqmc.Spec {
 	if tier == "thorough" {
 		n = 5
 	}
-	return []seqmc.Spec{specRelation(n), specContainTree(n), specContainGNMI(), specOnce(), specHistories(30, tier == "thorough"), specPopulations()}
+	return []seqmc.Spec{specRelation(n), specContainTree(n), specContainGNMI(), specOnce(), specHistories(30, tier == "thorough"), specPopulations(), specTwoQueries()}
 }
 
 func main() { seqmc.Main(harness{}) }
